@@ -81,7 +81,7 @@ def proof_half(pid, tier):
     axioms = re.findall(r"^\s*([A-Za-z0-9_.']+)\s*:", out[out.find("Axioms:"):], re.M) if "Axioms:" in out else []
     res["axioms"] = axioms
     n_printed = closed + out.count("Axioms:")
-    n_thm = len([n for n in names if not n.endswith("_example") and "example" not in n.lower()])
+    n_thm = len(re.findall(r"^\s*(?:Theorem|Corollary)\s+([A-Za-z0-9_']+)", strip_comments(open(pfile).read()), re.M))
     if axioms:
         res["broken"].append("axioms used: " + ", ".join(axioms))
     if n_printed < n_thm:
